@@ -112,6 +112,7 @@ type Val struct {
 	Bind  []Val
 	Tuple []Val
 	Loc   *Loc
+	Dyn   types.Type // dynamic type inside an interface value, when statically known
 }
 
 type Loc struct {
@@ -181,6 +182,7 @@ type FX struct {
 	unknown  []string
 	axioms   []string
 	constArrs map[string]string
+	cwSeen   map[*ssa.Function]bool
 }
 
 func (e *Engine) newFX(fn *ssa.Function, spec *FuncSpec) *FX {
